@@ -171,3 +171,43 @@ PROPS["C01"] = {
     "note": MINT_NOTE + " The swap||melt and melt||melt interleaving windows (two tables, two transactions) are NOT excluded by these theorems; they are exercised by stream mint-sched (when registered) and recorded as known findings if they reproduce.",
     "assumptions": MINT_ASSUME,
 }
+
+def mint_prop(pid, title, lean, text, extra_note="", streams=("mint-seq", "mint-mon"), design="DESIGN.md §4.1, §5 " ):
+    PROPS[pid] = {
+        "claimed": True,
+        "title": title,
+        "lean": lean + ["Gonuts.Tie.Mint"],
+        "streams": list(streams),
+        "thorough_shards": {"mint-seq": 4, "mint-mon": 4},
+        "level": "proof",
+        "technique": "Lean 4 theorems over an executable small-step model of the mint (refinement of each operation to closed case tables, invariants by induction over sequential histories, effect-level invariants for all schedules/crashes/faults) + differential correspondence and model-free property monitors against the real mint",
+        "design_ref": design + pid,
+        "text": text,
+        "note": MINT_NOTE + (" " + extra_note if extra_note else ""),
+        "assumptions": MINT_ASSUME,
+    }
+
+mint_prop("C02", "No inflation: outstanding ecash plus Lightning outflow never exceeds inflow", ["Gonuts.Props.C02"],
+    "PROVED for the model, for every input (UInt64 semantics incl. Go's unchecked wrap-around), every fee configuration and every Lightning script: swap outputs + input fee <= inputs in N with NO size hypothesis (swap_out_le_in_minus_fee: the unchecked input sum can only wrap down); signatures are for exactly the requested output amounts on the active keyset (signatures_match_outputs); mint outputs <= quote amount and the quote was PAID (mint_out_le_quote); an accepted melt holds >= amount + fee reserve + input fees (melt_burns_amount_reserve_fees); a melt makes at most one payment attempt, for the quote's invoice and msat amount, with the quote's FEE RESERVE as fee limit (fee_limit_eq_reserve, F1); 1000*quoted amount >= msat to be paid, full and MPP (meltquote_covers_msat, F2); fee = ceil(sum ppk/1000) per input keyset (C09.fees_per_keyset, C18.transactionFees_eq_ceil).",
+    "The history-level ledger inequality (issued - spent - locked + lnOut + credit <= lnIn) is NOT a Lean theorem yet: it is evaluated on the implementation after every operation by the model-free ledger monitor (msat arithmetic, scripted backend charging the whole fee limit); the per-operation bounds above are its inductive steps.")
+mint_prop("C03", "A mint quote is issued at most once per payment, never before it is paid", ["Gonuts.Props.C03"],
+    "PROVED for the model (mint after F11), sequential histories: issuance only on a quote that is PAID or UNPAID-with-settled-invoice (never_before_paid); for at most the quoted amount (amount_le_quote); for a NUT-20 locked quote only with a signature by that key over exactly (quote id, the submitted B_ in order) — no/garbage signature, other key, other quote, reordered/added/removed outputs refused (quoteSigOk_iff, nut20_required); after success the quote is ISSUED (issued_after_success), an ISSUED quote refuses with 20002 without any change or backend call (issued_refuses), and it stays ISSUED through any list of further mint requests, polls with any answer, watcher notifications, new quotes and swaps (issued_stays_issued, at_most_once; induction over the unbounded event list); the watcher writes PAID only over UNPAID (watcher_cases).",
+    "Overlapping MintTokens requests (both read PAID before either writes PENDING) and the watcher's read->write window are NOT excluded by the sequential theorems; they are the subject of stream mint-sched.")
+mint_prop("C04", "Only genuine mint signatures are honoured, at exactly their signed amount", ["Gonuts.Props.C04", "Gonuts.Props.C04Mint"],
+    "PROVED: (algebra, Props.C04, all primes n, all ZMod n-modules) the gate accepts iff C = key(id,amount)·H(secret) with the stated side conditions; every single-field mutation (amount, id, secret, C) of a genuine proof is rejected under key-injectivity / H-injectivity hypotheses; honest unblinded signatures are accepted; the symbolic view used by Model.Mint is sound under SigInjective (C04_symbolic_sound, with the counterexample not_jointly_injective showing the joint hypothesis is needed). (protocol, Props.C04Mint) gate_iff for the model's verifyProofs loop body in source order; swap and melt only accept inputs that pass it (swap_inputs_genuine, melt_inputs_genuine); mutation_amount/_keyset/_secret/_C, too_long_rejected, honest_accepted.",
+    "Unforgeability (no genuine term without a blind signature) is a cryptographic assumption. Stream bdhke checks the gate's accept/reject on real secp256k1 for every single-field mutation.",
+    streams=("mint-seq", "mint-mon", "bdhke"))
+mint_prop("C05", "Melt inputs follow the Lightning outcome: spent iff paid, released iff failed", ["Gonuts.Props.C05"],
+    "PROVED for the model, every melt that passed validation, every pay answer a0, every status answer a1 and every LIST of later poll answers (no length bound): the final quote state is the closed table meltOutcome a0 a1 / pollOutcome a (melt_table, poll_table: PAID iff a definitive success, UNPAID iff a definitive failure or not-found on the in-melt check, PENDING on every ambiguous answer); the inputs are SPENT with the preimage (paid), still LOCKED (pending) or RELEASED (unpaid), nothing else (melt_follows_outcome, tail_inputs, melt_internal); a poll adopts succ/failed in the same call and changes nothing otherwise (poll_follows_outcome, poll_inputs); the verdict after any list of polls is decided by the first definitive answer (resolve_first_definitive, resolve_all_ambiguous, resolve_final).")
+mint_prop("C06", "Rejected or malformed requests change nothing and never crash a handler", ["Gonuts.Props.C06"],
+    "PROVED for the model, every request content: a refused swap leaves tables and Lightning state untouched (swap_reject_noop); a refused melt likewise, except the failed backend lookup of an internal settlement after which spent is unchanged and no input is locked (melt_reject_noop, F15); a refused MintTokens leaves the tables exactly as its leading quote-state check left them — which changes at most that quote UNPAID->PAID when the invoice is settled (mint_reject_noop with quote ids unique in every reachable state: mintQ_nodup_db; quoteState_only_unpaid_to_paid; F4); refused mint-/melt-quote requests and restores write nothing.",
+    "No-panic is NOT a theorem: the model has no panic outcome after F3; panics of the Go are caught by the recover()-based monitors of mint-seq / mint-mon (and wire-malformed when registered).")
+mint_prop("C09", "Keyset lifecycle: deterministic keys, one active keyset, old ecash stays valid", ["Gonuts.Props.C09"],
+    "PROVED for the model (keyset = derivation index): stored rows keep index and fee through every effect/history (keyset_row_stable*); a successful rotation deactivates the old keyset, appends index+1 with the requested fee and leaves exactly one active keyset (rotate_ok, rotate_one_active); signatures only on the active keyset, unknown id -> 12001, inactive -> 12002 (sign_only_active); genuine proofs of every held keyset pass the gate (old_keysets_accepted) and are charged their own keyset's fee (fees_per_keyset, memFee_known); a restart rebuilds the cache from the stored rows (restart_cache).",
+    "That keyset id and the 60 keys are the NUT-02 function of (seed, index) is checked bit for bit against the Lean reference Spec.MintKeys by stream deriv (C11); the C09 monitors in mint-seq/mint-mon observe ids, keys, fees and the active flag across rotations and restarts of the real mint.",
+    streams=("mint-seq", "mint-mon", "deriv"))
+mint_prop("C15", "State check and restore tell the truth about everything the mint ever did", ["Gonuts.Props.C15"],
+    "PROVED for the model: the state-check answer has the request's length and order and entry i is stateOf over the WHOLE tables after re-polling (checkstate_truth, stateOf_meaning: SPENT with stored witness iff in spent, else PENDING iff locked, else UNSPENT incl. every unknown/malformed Y); restore returns exactly the requested messages that were signed, in order, with the stored signature, and writes nothing (restore_truth, restore_only_signed, restore_all_signed); every issuance path stores what it returns and every spend path stores its inputs (swap_stores, mint_stores; melt paths in C05); stored signatures and spent rows are never altered by any effect of any program (signature_forever*, C01.spent_forever_*).")
+mint_prop("C16", "Reported balances are exact and configured limits are enforced", ["Gonuts.Props.C16"],
+    "PROVED for the model: the per-keyset views are exact sums over ALL stored signatures / spent proofs, one row per keyset with rows, failing iff a sum reaches 2^63 (groupSum_exact); the balance query reports those, their UInt64 difference, and nut04.disabled iff MaxBalance>0 and balance>=MaxBalance (balance_report); a mint quote is created only if amount<=MaxAmount (when set) and balance+amount<=MaxBalance in the Go's uint64 arithmetic, with amount<2^63 so that the comparison is exact in N (mintquote_accept_only_if, balance_limit_exact); a melt quote only within the melt maximum (meltquote_accept_only_if).",
+    "Non-negativity of the balance (redeemed <= issued) follows from the ledger inequality, which is monitor-checked, not yet a theorem (see C02).")
